@@ -172,3 +172,64 @@ func C03_ProofHistory() {
 		}
 	}
 }
+
+var _ = vReg("C03_ProofMagnitudes", C03_ProofMagnitudes)
+
+// C03_ProofMagnitudes (T3): the proof encoders (convertLeafOp, convertInnerOps, PathToLeaf) against the real
+// verifier for symbolic magnitudes. A two-leaf tree is built in memory with symbolic node versions (every
+// varint length up to the bound) and, for membership, a symbolic root size and height; hashes are the
+// library's own (Node._hash with each node's version). The proof for either leaf, and the non-membership
+// proof of a key between / around them, must verify against the root hash.
+func C03_ProofMagnitudes() {
+	maxVer := int64(1) << 34
+	maxSize := int64(1) << 20
+	if vTier() == "thorough" {
+		maxVer = int64(1) << 48
+	}
+	p := vNewPool(3, []int{1, 2, 1})
+	vl, vrt, vroot := vInt64("leftversion"), vInt64("rightversion"), vInt64("rootversion")
+	vAssume(vl >= 1 && vl < maxVer)
+	vAssume(vrt >= 1 && vrt < maxVer)
+	vAssume(vroot >= 1 && vroot < maxVer)
+	val0, val1 := vBytes("val0", 1), vBytes("val1", 1)
+	member := vChoice("kind", 2) == 0
+	// leaves hold pool keys 0 and 2; pool key 1 is absent (between them)
+	l0 := &Node{key: p.keys[0], value: val0, size: 1, nodeKey: &NodeKey{version: vl, nonce: 2}}
+	l1 := &Node{key: p.keys[2], value: val1, size: 1, nodeKey: &NodeKey{version: vrt, nonce: 3}}
+	l0._hash(vl)
+	l1._hash(vrt)
+	root := &Node{key: p.keys[2], subtreeHeight: 1, size: 2, nodeKey: &NodeKey{version: vroot, nonce: 1}, leftNode: l0, rightNode: l1}
+	if member {
+		// the proof encoders copy height and size into the inner op: any magnitude
+		size := vInt64("rootsize")
+		vAssume(size >= 2 && size < maxSize)
+		root.size = size
+		h := vInt8("rootheight")
+		vAssume(h >= 1)
+		root.subtreeHeight = h
+	}
+	root._hash(vroot)
+	t := &ImmutableTree{root: root, version: vroot, skipFastStorageUpgrade: true, logger: NewNopLogger()}
+	rootHash := root.hash
+	if member {
+		i := 2 * vChoice("leaf", 2)
+		val := val0
+		if i == 2 {
+			val = val1
+		}
+		pr, err := t.GetMembershipProof(p.keys[i])
+		vAssert(err == nil && pr != nil, "c03m:getmembershipproof-err")
+		vAssert(ics23.VerifyMembership(ics23.IavlSpec, rootHash, pr, p.keys[i], val), "c03m:membership-verifies")
+		other := vBytes("othervalue", 1)
+		vAssume(vNot(vEqBytes(other, val)))
+		vAssert(!ics23.VerifyMembership(ics23.IavlSpec, rootHash, pr, p.keys[i], other), "c03m:membership-verifies-for-another-value")
+		vAssert(!ics23.VerifyMembership(ics23.IavlSpec, rootHash, pr, p.keys[2-i], val), "c03m:membership-verifies-for-another-key")
+		vCover("membership")
+		return
+	}
+	pr, err := t.GetNonMembershipProof(p.keys[1])
+	vAssert(err == nil && pr != nil, "c03m:getnonmembershipproof-err")
+	vAssert(ics23.VerifyNonMembership(ics23.IavlSpec, rootHash, pr, p.keys[1]), "c03m:nonmembership-verifies")
+	vAssert(!ics23.VerifyNonMembership(ics23.IavlSpec, rootHash, pr, p.keys[0]), "c03m:nonmembership-verifies-for-a-present-key")
+	vCover("nonmembership")
+}
